@@ -16,7 +16,7 @@ CLAUSES = {
     "packed": "packed storage (scale_factor and add_offset) gives the unpacked values, with the packing attributes of the file the frame comes from",
 }
 BOUNDS = {
-    "quick": "global 7x6 rho grid, N=2 levels (N=3 on one subgrid), legal subgrids {full, [1,6,1,5], [2,6,1,4], [1,5,2,5]}, 1 particle anywhere in the valid region incl. cell edges, any depth (one scenario with a second particle in another column and depth); all node values, masks, level depths, scale factors symbolic",
+    "quick": "global 7x6 rho grid, N=2 levels (N=3 on one subgrid), legal subgrids {full, [1,6,1,5], [2,6,1,4], [1,5,2,5]}, 1 particle anywhere in the valid region incl. cell edges, any depth (one scenario with a second particle in another column and depth); all node values, masks, level depths, scale factors symbolic; packing variants: scale and offset, scale only, v only, different packing in the second file, symbolic add_offset of u and v",
     "thorough": "N = 2, 3, 4 levels, subgrid given with negative indices",
 }
 ASSUMES = ["level depths of every column strictly increasing and negative (ROMS layout; C12 derives them)", "add_offset = 0 for u, v as the source documents",
